@@ -211,9 +211,18 @@ class RunExperiment(_RunSubprocess):
         # be skipped, so no incorrectness will occur. The new version will not
         # be committed into the version index.
         self._did_retrieve_version = True
-        self._most_relevant_version = ctx.version_index.generate_new_output_version(
-            commit=ctx.current_commit
-        )
+        while True:
+            self._most_relevant_version = (
+                ctx.version_index.generate_new_output_version(
+                    commit=ctx.current_commit
+                )
+            )
+            output_path = self.get_output_path(ctx)
+            if output_path is None or not output_path.exists():
+                break
+            # An output directory with this version already exists (e.g., it
+            # was left behind by a failed or aborted execution that ran within
+            # the same second). Never reuse it; generate the next version.
 
     def _ensure_most_relevant_existing_version_computed(self, ctx: "c.Context"):
         if self._did_retrieve_version:
